@@ -151,7 +151,7 @@ GenDecl(cx, d, g) ==
     CASE c \in {0, 1, 2} -> (LET e == GenInt(cx, d, g1) IN S3(<<Decl(n, I, e.x)>>, WithVar(cx, V(n, I, FALSE, FALSE)), e.g))
       [] c = 3 -> (LET e == GenBool(cx, d, g1) IN S3(<<Decl(n, "bool", e.x)>>, WithVar(cx, V(n, "bool", FALSE, FALSE)), e.g))
       [] c = 4 -> (LET e == GenStr(cx, 1, g1) IN S3(<<Decl(n, "str", e.x)>>, WithVar(cx, V(n, "str", FALSE, FALSE)), e.g))
-      [] c = 5 -> (LET e1 == GenInt(cx, 1, g1)  e2 == GenInt(cx, 0, e1.g)  w == Pick(e2.g, 3) IN
+      [] c = 5 -> (LET e1 == GenInt(Pure(cx), 1, g1)  e2 == GenInt(Pure(cx), 0, e1.g)  w == Pick(e2.g, 3) IN     \* U14: elements without side effects
                   S3(<<Decl(n, "ints", Mk("ints", IF w = 0 THEN <<e1.x>> ELSE IF w = 1 THEN <<e1.x, e2.x>> ELSE <<e1.x, IntL(4), e2.x>>))>>,
                      WithVar(cx, V(n, "ints", FALSE, FALSE)), Adv(e2.g)))
       [] c = 6 -> ( \* a builder: only appended to, indexed, measured, ranged, passed on
@@ -164,10 +164,10 @@ GenDecl(cx, d, g) ==
                      WithVar(cx, V(n, "mii", FALSE, FALSE)), Adv(e.g)))
       [] c = 8 -> (LET e == GenInt(cx, 0, g1) IN
                   S3(<<Decl(n, "msi", Mk("msi", << <<StrL(<<97>>), e.x>>, <<StrL(<<97, 98>>), IntL(2)>> >>))>>, WithVar(cx, V(n, "msi", FALSE, FALSE)), e.g))
-      [] c = 9 -> (LET e1 == GenInt(cx, 1, g1)  e2 == GenInt(cx, 0, e1.g) IN
+      [] c = 9 -> (LET e1 == GenInt(Pure(cx), 1, g1)  e2 == GenInt(Pure(cx), 0, e1.g) IN
                   IF Pick(e2.g, 2) = 0 THEN S3(<<Decl(n, "S", Mk("S", <<e1.x, e2.x>>))>>, WithVar(cx, V(n, "S", FALSE, FALSE)), Adv(e2.g))
                   ELSE S3(<<Decl(n, "S", CallE("mkS", <<e1.x>>))>>, WithVar(cx, V(n, "S", FALSE, FALSE)), Adv(e2.g)))
-      [] c = 10 -> (LET e1 == GenInt(cx, 1, g1)  e2 == GenInt(cx, 0, e1.g) IN
+      [] c = 10 -> (LET e1 == GenInt(Pure(cx), 1, g1)  e2 == GenInt(Pure(cx), 0, e1.g) IN
                    IF Pick(e2.g, 4) = 0 THEN S3(<<DeclZ(n, "pS")>>, WithVar(cx, V(n, "pS", FALSE, FALSE)), Adv(e2.g))
                    ELSE S3(<<Decl(n, "pS", Mk("pS", <<e1.x, e2.x>>))>>, WithVar(cx, V(n, "pS", FALSE, FALSE)), Adv(e2.g)))
       [] c = 11 -> (LET w == Pick(g1, 3)  svs == VarsOf(cx, "str") IN
